@@ -296,6 +296,7 @@ RESET_TIMER:
 		timeout.Stop()
 		c = nil // disable timeout select case
 	}
+	verifEv("s.wait", s, 0, 1, 0)
 
 	for {
 		s.mu.Lock()
@@ -351,6 +352,7 @@ RESET_TIMER:
 
 		// if it runs here, that means we have to block the call, and wait until the
 		// next data packet arrives.
+		verifEv("s.wait", s, 0, 2, 0)
 		select {
 		case <-s.chReadEvent:
 			if timeout != nil {
@@ -397,6 +399,7 @@ RESET_TIMER:
 		timeout.Stop()
 		c = nil // disable timeout select case
 	}
+	verifEv("s.wait", s, 1, 1, 0)
 
 	for {
 		// check for connection close and socket error
@@ -448,6 +451,7 @@ RESET_TIMER:
 
 		// if it runs here, that means we have to block the call, and wait until the
 		// transmit buffer to become available again.
+		verifEv("s.wait", s, 1, 2, 0)
 		select {
 		case <-s.chWriteEvent:
 			if timeout != nil {
@@ -1406,6 +1410,7 @@ func (l *Listener) AcceptKCP() (*UDPSession, error) {
 
 		timeout = timer.C
 	}
+	verifEv("l.wait", l, 1, 0, 0)
 
 	select {
 	case <-timeout:
